@@ -2,7 +2,7 @@
 import json
 
 ACTIONS = ["Type", "PushByte", "Start", "Strict", "LenientCall", "Validate", "PrintCall", "BytesCall", "FromBytesCall",
-           "NewCall", "IsContractCall", "EqualCall", "CodecCall"]
+           "NewCall", "IsContractCall", "CopyCall", "EqualCall", "CodecCall"]
 
 
 def run(ctx):
@@ -33,7 +33,7 @@ def run(ctx):
         n_b21 = sum(1 for b in bs if b[0]["op"] == "frombytes" and b[0]["ok"] and len(b[0]["bytes"]) == 21)
         n_b21rej = sum(1 for b in bs if b[0]["op"] == "frombytes" and not b[0]["ok"] and len(b[0]["bytes"]) == 21)
         n_b20 = sum(1 for b in bs if b[0]["op"] == "frombytes" and b[0]["ok"] and len(b[0]["bytes"]) == 20)
-        n_new = sum(1 for b in bs if b[0]["op"] == "new" and len(b) == 11)
+        n_new = sum(1 for b in bs if b[0]["op"] == "new" and len(b) == 12)
         n_nil = sum(1 for b in bs if b[0]["op"] == "equal" and b[-1]["op"] == "codec" and b[-1]["nil"])
         if min(n_strict, n_b21, n_b21rej, n_b20, n_new, n_nil) == 0:
             raise vlib.MachineryError("vacuity: generator produced no accepted strict string / 21-byte form / "
